@@ -189,6 +189,35 @@ pub fn run(tier: Tier) -> ! {
             Err(e) => run.count(&format!("pool_member_not_built: {}", crate::mon::msg_class(&e)), 1),
         }
     }
+    // one more member whose query indices are bound to repeat (40 queries over a 2^6..2^7-point domain):
+    // every round has to be checked even when its index was already seen
+    {
+        let bset = gen::boundary_set();
+        let mut rng = crate::mon::case_rng(seed, 3_003, 0);
+        let opts = GenOpts { n_ops: rng.gen_range(4..14), lookups: false, hashing: false, extension: true, max_table_len: 8, only_base2: false };
+        let (prog, inputs) = circ::gen_program(&mut rng, &bset, &opts);
+        let mut config = circ::fast_config();
+        config.fri_config.num_query_rounds = 40;
+        config.fri_config.proof_of_work_bits = 0;
+        config.security_bits = 100;
+        match circ::make_proven::<PoseidonGoldilocksConfig>(prog, inputs, config) {
+            Ok(p) => pos_pool.push(p),
+            Err(e) => run.count(&format!("pool_member_not_built: {}", crate::mon::msg_class(&e)), 1),
+        }
+    }
+    for pr in pos_pool.iter() {
+        if let Ok(Ok(c)) = catch(|| pr.built.data.compress(pr.proof.clone())) {
+            let distinct = c.proof.opening_proof.query_round_proofs.initial_trees_proofs.len();
+            let rounds = pr.proof.proof.opening_proof.query_round_proofs.len();
+            if distinct < rounds {
+                run.count("pool_proofs_with_repeated_query_indices", 1);
+                run.count("repeated_query_rounds_in_pool", (rounds - distinct) as u64);
+            }
+        }
+    }
+    if run.counter("pool_proofs_with_repeated_query_indices") == 0 && run.only_case.is_none() {
+        run.inconclusive("no pool proof has a repeated query index");
+    }
     for (i, pr) in pos_pool.iter().enumerate() {
         if run.skip_case(i as u64) {
             continue;
